@@ -11,7 +11,7 @@ from ..core import e1
 PROPERTY = "C04"
 LEVEL = "exploration"
 RULE = (
-    "lines 'p0 MNEM p1 . UNIT p2 VALUE p3 : p4 DESCR p5' for every (mnemonic(7), unit(11), value(12), description(7)) x "
+    "lines 'p0 MNEM p1 . UNIT p2 VALUE p3 : p4 DESCR p5' for every (mnemonic(7), unit(15), value(12), description(7)) x "
     "section kind {Version, Well, Curves, Parameter, custom title, None} x padding patterns (quick: every pattern with "
     "at most two non-default pads plus the all-padded line; thorough: the full product of the six pad positions over a "
     "reduced field palette), each pad in {'', ' ', '   ', tab, ' tab '}; special forms: time-like values HH:MM[:SS] "
@@ -27,7 +27,7 @@ ASSUMPTIONS = [
 ]
 
 MNEMS = ["A", "AB12", "A B", "ÅÄ", "A_1-2", "A(1)", "A#"]
-UNITS = ["", "m", "K/M3", "hh:mm", "ft.lbf", "°C", "%", "m/s2", "(m)", "[m]", "1000 lbf"]
+UNITS = ["", "m", "K/M3", "hh:mm", "ft.lbf", "°C", "%", "m/s2", "(m)", "[m]", "1000 lbf", "[0,1)", "(m]", "1/32", "m[2]"]
 VALUES = ["", "x", "12", "1.5", "a b", "'q'", '"q"', "(b)", "12-34-12-34W5M", "1.5.2", "a.b", "100 ft"]
 DESCRS = ["", "d", "a b", "(x) y", "1 d", "d.e", "2.5 x"]
 SECTIONS = ["Version", "Well", "Curves", "Parameter", "~Custom Section", None]
@@ -229,7 +229,11 @@ def via_read(si, vers="2.0", case="preserve"):
     for pads in (("", "", "D", " ", " ", ""), (" ", " ", "   ", "\t", "   ", " "), ("", "", "\t", "", "", "")):
         for unit in UNITS:
             lines, exps = [], []
-            for mi, mn in enumerate(MNEMS):
+            names = list(MNEMS)
+            if key == "Well" and case != "preserve":
+                # spellings of the four value-first mnemonics of LAS 1.2: after case normalisation they ARE STRT/STOP/STEP/NULL
+                names = names + ["Strt", "stoP", "Step", "nuLL"]
+            for mi, mn in enumerate(names):
                 for vi, value in enumerate(VALUES):
                     descr = DESCRS[(mi + vi) % len(DESCRS)]
                     if value and pads[2] == "":
@@ -263,8 +267,8 @@ def via_read(si, vers="2.0", case="preserve"):
                 nt += 1
                 eu = un[1:-1] if len(un) >= 2 and ((un[0] == "[" and un[-1] == "]") or (un[0] == "(" and un[-1] == ")")) else un
                 mn = {"preserve": mn, "upper": mn.upper(), "lower": mn.lower()}[case]
-                if vers == "1.2" and key == "Well":
-                    va, de = de, va  # LAS 1.2 ~Well lines are 'MNEM.UNIT DESCRIPTION : VALUE' (the generated names are never STRT/STOP/STEP/NULL)
+                if vers == "1.2" and key == "Well" and mn.upper() not in ("STRT", "STOP", "STEP", "NULL"):
+                    va, de = de, va  # LAS 1.2 ~Well lines are 'MNEM.UNIT DESCRIPTION : VALUE' except for STRT/STOP/STEP/NULL
                 got = (it.original_mnemonic, it.unit, it.descr)
                 okv = str(it.value) == va or _numeq(it.value, va)
                 if got != (mn, eu, de) or not okv:
